@@ -419,10 +419,67 @@ def unique_defs(cx):
     return {k: v for k, v in d.items() if k not in bad}
 
 
+def inline_ast(cx, expr):
+    """expr with every single-definition local (of this function, or of the enclosing functions for a closure's free
+    variables) replaced by its defining expression, recursively"""
+    import copy
+    env = {}
+    c = cx
+    chain = []
+    while c is not None:
+        chain.append(c)
+        c = c.parent
+    for c in reversed(chain):
+        u = unique_defs(c)
+        if c is not cx:
+            # only names the inner function does not bind itself
+            u = {k: v for k, v in u.items() if k not in cx.locals}
+        env.update(u)
+    return _Inline(env, 0).visit(copy.deepcopy(expr))
+
+
 def full_text(cx, expr):
     """text of expr with every single-definition local replaced by its defining expression, recursively: indifferent to
     temporaries being introduced, inlined or renamed"""
-    import copy
-    env = unique_defs(cx)
-    e = _Inline(env, 0).visit(copy.deepcopy(expr))
-    return ast.unparse(e)
+    return ast.unparse(inline_ast(cx, expr))
+
+
+def bound_args(P, cx, call):
+    """{parameter name: argument expression} of a call to a repository function / dataclass, however the arguments are
+    spelled (positionally or by keyword). Unresolvable callees yield only the keywords."""
+    from ..inline import _resolve, _params_of
+    out = {k.arg: k.value for k in call.keywords if k.arg}
+    t = _resolve(P, cx.f, call)
+    names = None
+    if t is not None:
+        pr = _params_of(P, t, call)
+        if pr:
+            names = pr[0]
+    elif isinstance(call.func, ast.Attribute):
+        from ..inline import method_signature
+        sg = method_signature(P, cx.f, call.func.attr)
+        if sg:
+            names = sg[0]
+    if names:
+        for i, a in enumerate(call.args):
+            if i < len(names) and not isinstance(a, ast.Starred):
+                out.setdefault(names[i], a)
+    return out
+
+
+def call_arg(P, cx, call, name, default=None):
+    return bound_args(P, cx, call).get(name, default)
+
+
+def test_awaited_call(cx, t):
+    """the call whose awaited result test node `t` examines: `await f(..)` itself, or a local all of whose reaching bindings
+    are awaits (the canonical form names awaited if-tests); None otherwise. For several bindings the first call is returned
+    only if all are calls to the same function text."""
+    a = t.ast
+    if isinstance(a, ast.Await) and isinstance(a.value, ast.Call):
+        return a.value
+    if isinstance(a, ast.Name):
+        vs = [v for (d, v) in cx.cfg.defs_reaching(t, a.id)]
+        if vs and all(isinstance(v, ast.Await) and isinstance(v.value, ast.Call) for v in vs) and len({ast.unparse(v.value.func) for v in vs}) == 1:
+            return vs[0].value
+    return None
